@@ -171,7 +171,8 @@ class C15(common.Spec):
             for attempt in (lambda: edzed.Input('late_block', initdef=0),
                             lambda: edzed.FuncBlock('late2', func=len),
                             lambda: circuit.findblock('spare').connect(1),
-                            lambda: circuit.set_persistent_data({})):
+                            lambda: circuit.set_persistent_data({}),
+                            lambda: circuit.set_persistent_data(None)):
                 try:
                     attempt()
                     frozen.append(False)
